@@ -14,6 +14,7 @@ INVARIANT TypeOK
 INVARIANT SequentiallyValid
 INVARIANT ImplEqualsEd
 INVARIANT TargetReached
+INVARIANT StructureConsistent
 INVARIANT CorruptRaises
 INVARIANT EmitCase
 INVARIANT EmitCorrupt
